@@ -9,6 +9,7 @@ package PKGNAME
 import (
 	"encoding/json"
 	"fmt"
+	"io"
 	"math"
 	"net"
 	"os"
@@ -292,6 +293,20 @@ func verifHTTPAcked() []byte          { return nil }
 func verifHTTPAttempts() int          { return 0 }
 func verifHTTPFailures() int          { return 0 }
 func verifHTTPMaxFailures(n int)      {}
+func verifHTTPAllowBadBody(on bool)   {}
+
+// kafka producer model (engine only)
+func verifKafkaNumSent() int      { return 0 }
+func verifKafkaSent(i int) []byte { return nil }
+func verifKafkaCalls() int        { return 0 }
+func verifKafkaFailNext(n int)    {}
+
+// verifFailBody: a response body that breaks off (used by the engine's http model for "error status with a
+// body that cannot be read to the end").
+type verifFailBody struct{}
+
+func (verifFailBody) Read(p []byte) (int, error) { return 0, io.ErrUnexpectedEOF }
+func (verifFailBody) Close() error               { return nil }
 func verifHTTPRetriedSameBatch() bool { return true }
 
 func verifStepLimit(n int) {}
